@@ -13,6 +13,10 @@ pi, pn = (int(x) for x in part[0][7:].split("/")) if part else (0, 1)
 env = dict(os.environ)
 if not full:
     env["VERIF_SKIP_BUILDS"] = "miri,fuzz"
+# --corners: only the all-off / all-on feature configurations (a catch there is a catch in the full
+# tier, whose shards are a superset); what is missed that way is re-run without the switch
+if "--corners" in sys.argv:
+    env["VERIF_ONLY_CFGS"] = "f000,f111,f111sa,f000sa"
 bad = []
 def sh(cmd, **kw):
     return subprocess.run(cmd, shell=True, stdout=subprocess.PIPE, stderr=subprocess.STDOUT, text=True, **kw)
